@@ -131,6 +131,8 @@ func (g *Gen) useSpec(sf *specFn) {
 			eqf = "seqeq"
 		case "SSeq":
 			eqf = "qeq"
+		case "SMap":
+			eqf = "smeq"
 		}
 		if eqf == "" {
 			continue
